@@ -1024,9 +1024,32 @@ class Variable(CanBehaveLikeAVariable[T]):
     def _generate_combinations_for_child_vars_values_(
         self, sources: Optional[Dict[int, HashedValue]] = None
     ):
-        yield from generate_combinations(
-            {k: var._evaluate__(sources) for k, var in self._child_vars_.items()}
+        yield from self._generate_child_vars_values_from_(
+            list(self._child_vars_.items()), sources or {}, {}
         )
+
+    def _generate_child_vars_values_from_(
+        self,
+        child_vars: List[Tuple[str, SymbolicExpression]],
+        bindings: Dict[int, HashedValue],
+        values: Dict[str, OperationResult],
+    ):
+        """
+        Evaluate the child variables one after the other, each with the bindings produced by the previous ones, such
+        that arguments that share a variable are evaluated for the same value of it.
+
+        :param child_vars: The remaining (name, child variable) pairs.
+        :param bindings: The bindings produced so far.
+        :param values: The results of the child variables evaluated so far.
+        """
+        if not child_vars:
+            yield values
+            return
+        (name, var), remaining = child_vars[0], child_vars[1:]
+        for var_val in var._evaluate__(bindings):
+            yield from self._generate_child_vars_values_from_(
+                remaining, var_val.bindings, {**values, name: var_val}
+            )
 
     def _process_output_and_update_values_(
         self, instance: Any, kwargs: Dict[str, OperationResult]
